@@ -26,6 +26,13 @@ impl FixtureDatabase {
         self.analyze_file_internal(file_path, content, false);
     }
 
+    /// Verification hook (off unless built with `--cfg pytest_language_server_verif`):
+    /// exposes the workspace scan's no-cleanup analysis path to external harnesses.
+    #[cfg(pytest_language_server_verif)]
+    pub fn verif_analyze_file_fresh(&self, file_path: PathBuf, content: &str) {
+        self.analyze_file_internal(file_path, content, false);
+    }
+
     /// Internal file analysis with optional cleanup of previous definitions
     fn analyze_file_internal(&self, file_path: PathBuf, content: &str, cleanup_previous: bool) {
         // Use cached canonical path to avoid repeated filesystem calls
